@@ -560,6 +560,8 @@ theorem doSetInstCore_own {w : World} {i : InstId} {x : Name} {lit : Lit} {I : I
       have e02 := e01.trans e12
       simp only
       split
+      · exact e02
+      split
       · split <;> exact e02
       · rw [setInst_eq (w := { w1 with cells := cells2 }) _ hI1]
         refine InstEffect.setRecord e02 hI1 ?_ ?_
@@ -606,6 +608,8 @@ theorem doSetInstCore_effect (w : World) (i : InstId) (x : Name) (lit : Lit) :
           have e02 : Effect w { w with cells := cells2 } (some i) :=
             Effect.of_cells_ext _ (by rw [hl]; simp)
           simp only
+          split
+          · exact e02
           split
           · split <;> exact e02
           · rw [setInst_eq (w := { w with cells := cells2 }) _ hI]
@@ -1005,12 +1009,17 @@ theorem doSetClsCore_effect (w : World) (k : ClsId) (x : Name) (lit : Lit) :
       ClsEffect.setOwn (ClsEffect.of_cells (by simp)) hcells
     show ClsEffect w (match validate (({ w with cells := w.cells ++ extra ++ e2 }).setOwn k x p).cells p v with
       | .error e => (({ w with cells := w.cells ++ extra ++ e2 } : World), some e)
-      | .ok cells2 => (({ ({ w with cells := w.cells ++ extra ++ e2 }).setOwn k x p with cells := cells2 }).setOwn k x { p with default := v }, none)).1
+      | .ok cells2 =>
+        if p.readonly then (({ w with cells := cells2 } : World), some Err.typeError)
+        else (({ ({ w with cells := w.cells ++ extra ++ e2 }).setOwn k x p with cells := cells2 }).setOwn k x { p with default := v }, none)).1
     cases hval : validate (({ w with cells := w.cells ++ extra ++ e2 }).setOwn k x p).cells p v with
     | error e => exact ClsEffect.of_cells (by simp)
     | ok cells2 =>
       obtain ⟨hl, _⟩ := validate_spec hval
       simp only
+      split
+      · refine ClsEffect.of_cells ?_
+        rw [hl, setOwn_cells]; simp
       have hlen1 : (({ w with cells := w.cells ++ extra ++ e2 }).setOwn k x p).cells.length = (w.cells ++ extra ++ e2).length := by
         rw [setOwn_cells]
       have e2' : ClsEffect w { ({ w with cells := w.cells ++ extra ++ e2 }).setOwn k x p with cells := cells2 } :=
@@ -1209,6 +1218,13 @@ theorem setupKwargs_spec (w : World) (k : ClsId) (base : Nat) :
           exact ⟨by simp, hg.mono⟩
         · rename_i cells2 hval
           obtain ⟨hl, _⟩ := validate_spec hval
+          split at h
+          · simp at h; obtain ⟨⟨rfl, rfl⟩, _⟩ := h
+            refine ⟨by rw [hl]; simp, ?_⟩
+            intro xv hxv c hc
+            rcases hg xv hxv c hc with h | h
+            · exact Or.inl h
+            · right; rw [hl]; simp; omega
           have hg1 : GoodVals w base cells2 (aset vals x v) := by
             intro xv hxv c hc
             rcases mem_aset hxv with rfl | hm
@@ -1370,6 +1386,8 @@ theorem setupKwargs_frame (w : World) (k : ClsId) (hb : ∀ c : Nat, heldByClass
             rw [hd1 c hc]
             exact hsafe hlit ho
           subst this
+          split at h
+          · simp at h; obtain ⟨⟨_, rfl⟩, _⟩ := h; exact hd1
           exact setupKwargs_frame w k hb rest _ _ vals' cells' err h (by simp; omega) hd1
             (fun e he => hs e (by simp [he]))
 
@@ -1592,6 +1610,15 @@ theorem setupKwargs_get (w : World) (k : ClsId) (hb : ∀ c : Nat, heldByClass w
           exact ⟨by simp, fun c _ hc => deref_append_lt hc, by simp⟩
         · rename_i cells2 hval
           obtain ⟨hl, ht⟩ := validate_spec hval
+          split at h
+          · simp at h; obtain ⟨⟨rfl, rfl⟩, rfl⟩ := h
+            refine ⟨by simp, ?_, by rw [hl]; simp⟩
+            intro c hc1 hc2
+            by_cases hne : deref cells2 c = deref (cells ++ e1) c
+            · rw [hne]; exact deref_append_lt hc2
+            · have hs := ht c hne
+              have : c < w.cells.length := hb c (resolve_held hr c (by simp [PObj.cells]; exact Or.inr (by simpa [PObj.slotCells] using hs)))
+              omega
           obtain ⟨ih1, ih2, ih3⟩ := setupKwargs_get w k hb rest cells2 _ vals' cells' err h
           refine ⟨?_, ?_, by rw [hl] at ih3; simp at ih3; omega⟩
           · intro he x hx
